@@ -18,6 +18,10 @@ func (fv *FV) boxFns(sort string) (string, string) {
 // box converts a value of static Go type t to an interface value.
 func (fv *FV) box(a Term, t types.Type) Term {
 	if _, ok := t.Underlying().(*types.Interface); ok {
+		if a.Sort == SInt {
+			// reflect.Type (modelled as a type id) stored in an interface
+			return Term{S: fmt.Sprintf("(pv_mkval (ite (= %s 0) 0 %d) %s)", a.S, fv.eng.tid(t), a.S), Sort: SVal}
+		}
 		return a
 	}
 	if b, ok := t.(*types.Basic); ok && b.Kind() == types.UntypedNil {
@@ -77,6 +81,14 @@ func (fv *FV) hasType(v Term, t types.Type) Term {
 // typeFacts is emitted at print time: implements-facts and kinds for all known type ids.
 func (fv *FV) typeFacts() string {
 	var sb strings.Builder
+	if fv.usesEvalPhase {
+		if funcPkgName(fv.fn) == "parser" {
+			sb.WriteString("(assert (not pv_evalphase))\n")
+		} else {
+			sb.WriteString("(assert pv_evalphase)\n")
+			fv.assume("U4: ASTs handed to the evaluator come from error-free parses and satisfy the evalphase() halves of the AST invariants (established by the parser only on error-free runs; not proved)")
+		}
+	}
 	for _, name := range sortedKeys(fv.implUsed) {
 		it := fv.implUsed[name].Underlying().(*types.Interface)
 		for id, t := range fv.eng.tidT {
